@@ -1,3 +1,4 @@
+use super::OwnedView;
 use crate::{
     html::attribute::{any_attribute::AnyAttribute, Attribute},
     hydration::Cursor,
@@ -22,7 +23,7 @@ use reactive_graph::{
         AnySource, AnySubscriber, Observer, ReactiveNode, Source, Subscriber,
         ToAnySubscriber, WithObserver,
     },
-    owner::{on_cleanup, provide_context, use_context},
+    owner::{on_cleanup, provide_context, use_context, Owner},
 };
 use std::{
     cell::RefCell,
@@ -39,6 +40,8 @@ use throw_error::ErrorHook;
 pub struct Suspend<T> {
     pub(crate) subscriber: SuspendSubscriber,
     pub(crate) inner: Pin<Box<dyn Future<Output = T> + Send>>,
+    // the owner under which the `Future` runs: the view it resolves to is rendered under it, too
+    pub(crate) owner: Owner,
 }
 
 #[derive(Debug, Clone)]
@@ -123,8 +126,14 @@ impl<T> Suspend<T> {
         let subscriber = SuspendSubscriber::new();
         let any_subscriber = subscriber.to_any_subscriber();
         let inner = any_subscriber
-            .with_observer(|| Box::pin(ScopedFuture::new(fut.into_future())));
-        Self { subscriber, inner }
+            .with_observer(|| ScopedFuture::new(fut.into_future()));
+        let owner = inner.owner.clone();
+        let inner = Box::pin(inner);
+        Self {
+            subscriber,
+            inner,
+            owner,
+        }
     }
 }
 
@@ -174,7 +183,9 @@ where
     type State = SuspendState<T>;
 
     fn build(self) -> Self::State {
-        let Self { subscriber, inner } = self;
+        let Self {
+            subscriber, inner, ..
+        } = self;
 
         // create a Future that will be aborted on on_cleanup
         // this prevents trying to access signals or other resources inside the Suspend, after the
@@ -223,7 +234,9 @@ where
     }
 
     fn rebuild(self, state: &mut Self::State) {
-        let Self { subscriber, inner } = self;
+        let Self {
+            subscriber, inner, ..
+        } = self;
 
         // create a Future that will be aborted on on_cleanup
         // this prevents trying to access signals or other resources inside the Suspend, after the
@@ -324,15 +337,19 @@ where
     ) where
         Self: Sized,
     {
+        // the view is produced by a `ScopedFuture`, but it is rendered by whoever polls the stream:
+        // render it under the same owner, not under the one that happens to be set on that thread
+        let owner = self.owner;
         let mut fut = Box::pin(self.inner);
         match fut.as_mut().now_or_never() {
-            Some(inner) => inner.to_html_async_with_buf::<OUT_OF_ORDER>(
-                buf,
-                position,
-                escape,
-                mark_branches,
-                extra_attrs,
-            ),
+            Some(inner) => OwnedView::new_with_borrowed_owner(inner, owner)
+                .to_html_async_with_buf::<OUT_OF_ORDER>(
+                    buf,
+                    position,
+                    escape,
+                    mark_branches,
+                    extra_attrs,
+                ),
             None => {
                 if use_context::<SuspenseContext>().is_none() {
                     buf.next_id();
@@ -343,7 +360,9 @@ where
                     let fut = async move {
                         select! {
                             _  = local_rx => None,
-                            value = fut => Some(value)
+                            value = fut => Some(
+                                OwnedView::new_with_borrowed_owner(value, owner)
+                            )
                         }
                     };
                     let id = buf.clone_id();
@@ -399,7 +418,9 @@ where
         cursor: &Cursor,
         position: &PositionState,
     ) -> Self::State {
-        let Self { subscriber, inner } = self;
+        let Self {
+            subscriber, inner, ..
+        } = self;
 
         // create a Future that will be aborted on on_cleanup
         // this prevents trying to access signals or other resources inside the Suspend, after the
